@@ -341,9 +341,9 @@ Definition pop_block_list (bs : list block) : option (list block) :=
    block for the EvaluatedSubexpressions step to pop; a For still evaluating
    its iterated value pops the index and pushes a block for that step. *)
 Fixpoint break_unwind (t : list (estate * expr)) (bs : list block) (vs : list value)
-  : option (list (estate * expr) * list block * list value) :=
+  : option (list (estate * expr) * list block * list value * option bool) :=
   match t with
-  | [] => Some ([], bs, vs)
+  | [] => Some ([], bs, vs, None)
   | (s, e) :: t' =>
       if is_running_loop s e then
         match e with
@@ -351,12 +351,12 @@ Fixpoint break_unwind (t : list (estate * expr)) (bs : list block) (vs : list va
             match s with
             | SPart BDoneRun =>
                 match vs with
-                | _ :: _ :: vs' => Some ((SDone, e) :: t', bs, vs')
+                | _ :: _ :: vs' => Some ((SDone, e) :: t', bs, vs', Some (eused e))
                 | _ => None
                 end
             | _ =>
                 match vs with
-                | _ :: vs' => Some ((SDone, e) :: t', [] :: bs, vs')
+                | _ :: vs' => Some ((SDone, e) :: t', [] :: bs, vs', Some (eused e))
                 | _ => None
                 end
             end
@@ -364,10 +364,10 @@ Fixpoint break_unwind (t : list (estate * expr)) (bs : list block) (vs : list va
             match s with
             | SPart BDoneRun =>
                 match pop_block_list bs with
-                | Some bs1 => Some ((SDone, e) :: t', bs1, vs)
+                | Some bs1 => Some ((SDone, e) :: t', bs1, vs, Some (eused e))
                 | None => None
                 end
-            | _ => Some ((SDone, e) :: t', bs, vs)
+            | _ => Some ((SDone, e) :: t', bs, vs, Some (eused e))
             end
         end
       else if entry_pops s e then
@@ -707,7 +707,9 @@ Definition exec (p : prog) (f : frame) (s : estate) (e : expr) : xres :=
   | EBreak m =>
       match break_unwind (todo f) (blocks f) (vals f) with
       | None => XPanic
-      | Some (t, bs, vs) => XOk (push_val_if (used m) (mkFrame t vs bs (nextb f) (uses f)) vunit) []
+      | Some (t, bs, vs, lu) =>
+          (* the loop's value (Unit) is pushed when the LOOP's value is used; with no enclosing loop, break's own flag *)
+          XOk (push_val_if (match lu with Some u => u | None => used m end) (mkFrame t vs bs (nextb f) (uses f)) vunit) []
       end
   | EContinue m =>
       match continue_unwind (todo f) (blocks f) with
